@@ -32,8 +32,10 @@ from vlib import hlib
 hlib.require_repo_src()
 from srctools.keyvalues import Keyvalues  # noqa: E402
 from srctools.math import Angle, FrozenAngle, FrozenMatrix, FrozenVec, Matrix, Vec  # noqa: E402
+import srctools.vmf as vmf_mod  # noqa: E402
 from srctools.vmf import (  # noqa: E402
-    VMF, DispFlag, Entity, EntityFixup, FixupValue, Output, Side, Solid, TriangleTag, UVAxis, Vec4, VisGroup,
+    VMF, Camera, Cordon, DispFlag, Entity, EntityFixup, EntityGroup, FixupValue, Output, Side, Solid, TriangleTag, UVAxis,
+    Vec4, VisGroup,
 )
 
 warnings.simplefilter('ignore', DeprecationWarning)
@@ -154,8 +156,14 @@ def export_text(obj, multiblend: bool = True) -> str:
         obj.export(buf, '', multiblend)
     elif isinstance(obj, Entity):
         obj.export(buf, '', multiblend)
-    elif isinstance(obj, VisGroup):
+    elif isinstance(obj, (VisGroup, EntityGroup, Camera, Cordon)):
         obj.export(buf, '')
+    elif isinstance(obj, EntityFixup):
+        buf.write('fixups\n{\n')
+        obj.export(buf, '')
+        buf.write('}\n')
+    elif isinstance(obj, UVAxis):
+        buf.write(f'"uaxis" "{obj}"\n')
     else:
         raise TypeError(type(obj))
     return buf.getvalue()
@@ -278,14 +286,52 @@ def build(cls: str, o: dict, vmf: VMF):
         return make_visgroup(vmf, o)
     if cls == 'Keyvalues':
         return make_kv(o)
-    raise ValueError(cls)
+    if cls in SIMPLE_PROBES:
+        return SIMPLE_PROBES[cls](vmf)
+    raise SystemExit(f'MACHINERY: no probe object for class {cls}')
+
+
+# probe objects of the classes without optional blocks
+SIMPLE_PROBES = {
+    'EntityGroup': lambda vmf: EntityGroup(vmf, -1, False, True, Vec(220, 30, 220)),
+    'Camera': lambda vmf: Camera(vmf, Vec(1, 2, 3), Vec(64, 5, 6)),
+    'Cordon': lambda vmf: Cordon(vmf, Vec(-64, -64, -32), Vec(64, 128, 256), True, 'cord "A"'),
+    'UVAxis': lambda vmf: UVAxis(0.6, 0.0, -0.8, 8.0, 0.5),
+    'EntityFixup': lambda vmf: EntityFixup([FixupValue('var', 'val', 1), FixupValue('Other', '2', 2)]),
+}
+PROBED = {'Side', 'Solid', 'Entity', 'Output', 'VisGroup', 'Keyvalues'} | set(SIMPLE_PROBES)
+
+
+def copyable_classes() -> dict:
+    """Reflective inventory: every class defined in srctools.vmf (plus Keyvalues) that defines copy(),
+    __copy__() or __deepcopy__() itself, with the fields its definition declares (attrs fields,
+    __slots__, or the attributes its __init__ assigns)."""
+    import inspect
+    found = {}
+    for name, klass in [('Keyvalues', Keyvalues)] + inspect.getmembers(vmf_mod, inspect.isclass):
+        if klass is not Keyvalues and klass.__module__ != vmf_mod.__name__:
+            continue
+        how = [m for m in ('copy', '__copy__', '__deepcopy__') if m in vars(klass)]
+        if not how:
+            continue
+        if hasattr(klass, '__attrs_attrs__'):
+            fields = [a.name for a in klass.__attrs_attrs__]
+        elif '__slots__' in vars(klass):
+            fields = [f for f in vars(klass)['__slots__'] if f != '__weakref__']
+        else:
+            fields = sorted(set(re.findall(r'self\.(\w+)\s*(?::[^=\n]+)?=[^=]', inspect.getsource(klass.__init__))))
+        found[name] = {'how': how, 'fields': sorted(fields)}
+    return found
 
 
 def do_copy(cls: str, obj, how: str, other: VMF):
-    """how: 'same' (copy inside its map) or 'other' (into another map)."""
-    if cls in ('Output', 'Keyvalues'):
+    """how: 'same' (copy inside its map), 'other' (into another map), 'copy' / 'deepcopy' (copy module)."""
+    if how in ('copy', 'deepcopy'):
+        import copy
+        return getattr(copy, how)(obj)
+    if cls in ('Output', 'Keyvalues', 'Camera', 'Cordon', 'UVAxis'):
         return obj.copy()
-    if cls == 'VisGroup':
+    if cls in ('VisGroup', 'EntityGroup'):
         return obj.copy(other) if how == 'other' else obj.copy()
     return obj.copy(vmf_file=other) if how == 'other' else obj.copy()
 
@@ -367,8 +413,9 @@ def method_mutation(cls: str, obj, meth: str) -> None:
             obj['newkey'] = 'nv'
             del obj['angles']
     elif meth == 'fixup_edit':
-        obj.fixup['$var'] = 'edited'
-        obj.fixup['third'] = '3'
+        fix = obj if cls == 'EntityFixup' else obj.fixup
+        fix['$var'] = 'edited'
+        fix['third'] = '3'
     elif meth == 'vertex_edit':
         side = obj if cls == 'Side' else (obj.sides[0] if cls == 'Solid' else obj.solids[0].sides[0])
         v = side[1, 1]
@@ -390,6 +437,9 @@ def method_mutation(cls: str, obj, meth: str) -> None:
             if obj.child_groups:
                 obj.child_groups[0].color *= 2
                 obj.child_groups.pop()
+        elif cls == 'EntityGroup':
+            obj.shown = not obj.shown
+            obj.color *= 0.5
         else:
             obj.visgroup_ids.add(77)
             obj.hidden = not obj.hidden
@@ -706,7 +756,8 @@ def run_cells(cases_file: str, out: hlib.RecWriter, part: int, nparts: int, stat
 
 METHODS = {'Side': ['translate', 'localise', 'vertex_edit'], 'Solid': ['translate', 'localise', 'vertex_edit', 'vis_edit'],
            'Entity': ['translate', 'localise', 'vertex_edit', 'key_edit', 'fixup_edit', 'out_edit', 'vis_edit'],
-           'Output': ['out_edit'], 'VisGroup': ['vis_edit'], 'Keyvalues': ['key_edit']}
+           'Output': ['out_edit'], 'VisGroup': ['vis_edit'], 'Keyvalues': ['key_edit'],
+           'EntityGroup': ['vis_edit'], 'Camera': [], 'Cordon': [], 'UVAxis': [], 'EntityFixup': ['fixup_edit']}
 
 
 def method_ok(cls: str, opts: list, meth: str) -> bool:
@@ -765,6 +816,15 @@ def main() -> None:
         for _ in range(20 if hlib.tier() == 'thorough' else 3):
             for f, lt, rt in ops:
                 binop_record(f, lt, rt, rng, out, 'random', stats)
+    elif mode == 'inventory':
+        inv = copyable_classes()
+        walked = {}
+        for name in inv:
+            if name in PROBED:      # the fields a probe object really has (what the heap walk will see)
+                opts = {'Side': ['disp', 'multi', 'strata'], 'Entity': ['fix', 'outs', 'brush']}.get(name, [])
+                walked[name] = sorted(fields_of(build(name, opts_dict(opts), VMF())))
+        print(json.dumps({'classes': inv, 'probed': sorted(PROBED), 'walked': walked}))
+        return
     elif mode == 'replay':
         rp = json.load(open(sys.argv[2]))
         rec = rp['record']
